@@ -478,6 +478,18 @@ func (tr *Tr) convert(v Value, from, to types.Type, st *State) Value {
 			}
 			_ = lo
 			_ = hi
+			// same width, different signedness: every value of the source type is at most one modulus away from the
+			// target range, so a single comparison replaces the mod (values of a type are kept inside its range throughout)
+			if fb, fs, _ := intBits(from); true {
+				if tb, ts, _ := intBits(to); fb == tb && fs != ts {
+					m := pow2(tb)
+					if ts {
+						h := pow2(tb - 1)
+						return Sc{T: fmt.Sprintf("(ite (>= %s %s) (- %s %s) %s)", s.T, h, s.T, m, s.T)}
+					}
+					return Sc{T: fmt.Sprintf("(ite (< %s 0) (+ %s %s) %s)", s.T, s.T, m, s.T)}
+				}
+			}
 			return Sc{T: wrapMod(s.T, to)}
 		}
 	}
